@@ -78,9 +78,13 @@ class ConclusionSelector(LogicalBinaryOperator, ABC):
     def _reset_evaluation_state_(self) -> None:
         """
         Forget what was concluded during a previous evaluation of the query, a new evaluation concludes afresh.
+        That includes the conclusions selected for the last result of an evaluation that was abandoned: a generator
+        that is closed at its `yield` never reaches the `clear()` behind it.
         """
+        super()._reset_evaluation_state_()
         for concluded_before in self.concluded_before.values():
             concluded_before.clear()
+        self._conclusion_.clear()
 
 
 @dataclass(eq=False)
